@@ -679,6 +679,26 @@ func runC07(c *core.Ctx) {
 		c.Undecided("traversal/selector.(ExploreUnion).Interests", "-", "not found")
 	}
 
+	c.Rule("C07.matchdelegates", "what a composite selector matches is what its members match: no Match method of a Selector implementation in traversal/selector consults Decide (its own or a member's) - Decide is the coarser question (a matcher with a subset decides true for nodes its Match returns nothing for), so a Match gated by Decide skips the members that would have matched, and the walk reports the node as a mere candidate", 8)
+	if selI := p.Iface("traversal/selector", "Selector"); selI != nil {
+		for _, im := range p.Implementers(selI, func(rel string) bool { return rel == "traversal/selector" }) {
+			fn := p.Method(im.Type(), "Match")
+			if fn == nil || len(fn.Blocks) == 0 {
+				continue
+			}
+			bad := false
+			pos := fn.Pos()
+			for _, ci := range core.CallsR(fn) {
+				if cc := ci.Common(); cc.IsInvoke() && cc.Method.Name() == "Decide" {
+					bad, pos = true, ci.Pos()
+				} else if cal := cc.StaticCallee(); cal != nil && cal.Name() == "Decide" && cal.Signature.Recv() != nil {
+					bad, pos = true, ci.Pos()
+				}
+			}
+			c.Check(!bad, "traversal/selector."+im.Named.Obj().Name()+"#Match-asks-Match", p.Pos(pos), "answers from Match only", "Match of "+im.Named.Obj().Name()+" consults Decide: a member whose Decide is true but whose Match returns nothing (a subset matcher on a node that is too short or of another kind) ends the search, and members behind it that do match are never asked")
+		}
+	}
+
 	c.Rule("C07.stopat", "the stop-at condition names one link: every value (*Condition).Match can return as true derives from a comparison of the two links as wholes - Cid.Equals, or equality of their String()/Binary()/KeyString()/Bytes() - and never from a comparison of a part of the CID (its multihash, prefix, codec or version): a different link that merely shares the hash must not stop the recursion", 1)
 	if fn := p.Func("traversal/selector", "*Condition", "Match"); fn != nil {
 		whole := map[string]bool{"Equals": true, "String": true, "Binary": true, "KeyString": true, "Bytes": true, "AsLink": true, "Kind": true}
